@@ -47,7 +47,7 @@ def _project(path, rootless=False):
 # C10
 # ------------------------------------------------------------------------------------------
 
-RO_OPS = ("get", "values", "children", "rename", "set_values", "set_vertices", "create", "add_data", "remove", "copy_same", "copy_other", "pg_add", "type_edit", "root_type_edit",
+RO_OPS = ("get", "values", "children", "rename", "set_values", "set_vertices", "create", "add_data", "remove", "copy_same", "copy_other", "pg_add", "type_edit", "root_type_edit", "remove_child", "remove_child_held",
           "close_open", "close_open_r", "fetch_active_r", "fetch_active_rw", "idle")
 
 
@@ -57,9 +57,9 @@ class ReadOnlyHistories(Contract):
     symbolic = False
     has_native = True
     props = ("C10",)
-    bounded_scope = ("a 5-entity project opened with mode 'r'; sequences of 3-8 calls over getters, setters (on entities and on entity types, the root's included), creations, removals, copies, property-group edits, close/re-open "
+    bounded_scope = ("a 5-entity project opened with mode 'r'; sequences of 3-8 calls over getters, setters (on entities and on entity types, the root's included), creations, removals (through the workspace and through the parent, also repeated with a handle kept from an earlier attempt or session), copies, property-group edits, close/re-open "
                      "(with and without an explicit mode) and fetch_active_workspace: after every call the file's sha256 is unchanged, an open handle reports mode 'r', and every "
-                     "call that has to write raised; 12 fixed + 40 seeded sequences (quick) / 600 (thorough); plus the ui.json loader and monitoring-directory helpers on ordinary "
+                     "call that has to write raised; 14 fixed + 40 seeded sequences (quick) / 600 (thorough); plus the ui.json loader and monitoring-directory helpers on ordinary "
                      "and root-less files")
 
     FIXED = [
@@ -75,6 +75,8 @@ class ReadOnlyHistories(Contract):
         [("children", 0), ("close_open", 0), ("children", 0), ("rename", 1), ("close_open", 0), ("rename", 0)],
         [("type_edit", 0), ("type_edit", 1), ("type_edit", 2), ("type_edit", 3), ("root_type_edit", 0)],
         [("root_type_edit", 0), ("close_open", 0), ("root_type_edit", 0), ("type_edit", 5)],
+        [("remove_child", 1), ("remove_child_held", 1), ("close_open", 0), ("remove_child_held", 1)],
+        [("remove_child", 1), ("close_open", 0), ("remove_child_held", 1), ("remove_child", 1), ("remove_child_held", 1)],
     ]
 
     def native_cases(self, tier, rng):
@@ -110,6 +112,7 @@ class ReadOnlyHistories(Contract):
         before = _sha(path)
         other = Workspace.create(os.path.join(d, "other.geoh5"))
         ws = Workspace(path, mode="r")
+        held = {}
         try:
             for step, (op, a) in enumerate(case["ops"]):
                 tag = f"step {step} ({op} {a})"
@@ -156,6 +159,18 @@ class ReadOnlyHistories(Contract):
                             o.add_data({"n": {"values": np.zeros(len(o.vertices))}})
                         elif op == "remove":
                             ws.remove_entity(o)
+                        elif op in ("remove_child", "remove_child_held"):
+                            # removal through the parent; "held": with a handle kept from an earlier call / session
+                            # (a refused attempt may already have dropped the child from the in-memory list)
+                            kid = held.get(o.name) if op == "remove_child_held" else None
+                            if kid is None:
+                                kids = [c for c in o.children if hasattr(c, "values") and c.on_file]
+                                kid = kids[0] if kids else None
+                            if kid is None:
+                                wrote = None
+                            else:
+                                held[o.name] = kid
+                                o.remove_children([kid])
                         elif op == "copy_same":
                             o.copy()
                         elif op == "pg_add":
